@@ -89,6 +89,10 @@ class Report:
         self.known = {}       # what -> count
         self.coverage = {}
         self.assumptions = []
+        import glob
+        for f in glob.glob(os.path.join(VERIF, 'replays', '%s_*' % prop)):
+            try: os.remove(f)
+            except OSError: pass
 
     def violation(self, key, text, replay=None):
         """key identifies the failing input/call site/history."""
